@@ -28,7 +28,33 @@ def run_job(kind, key):
     c = pp.Chunks()
     I.contracts[c.name] = c
     recs, npaths = verify_contract(I, c, PROP)
+    for r in recs:
+        if r['verdict'] == 'failed' and r['kind'] == 'post' and isinstance(r.get('inputs'), dict):
+            r['replay'] = replay_chunks(r['inputs'])
     return dict(job=key, records=recs, paths=npaths, lib=sorted(I.used_lib))
+
+
+def replay_chunks(inputs):
+    """the counter-model (n, num_chunks) on the real function: the def of _chunks is cut out of the real depccg/parsing.py (the module itself needs the
+    compiled extension) and called on list(range(n)); the chunks must be non-empty contiguous pieces, in order, covering the list"""
+    try:
+        n, k = int(inputs['n']), int(inputs['num_chunks'])
+    except Exception:
+        return dict(reproduced=False, note='model not ground')
+    if n > 100000:
+        return dict(reproduced=False, note='model too large to replay')
+    body = ('import ast, math, os\n'
+            'src = open(os.path.join(os.environ.get("VERIF_REPO", "/repo"), "depccg/parsing.py")).read()\n'
+            'fn = [x for x in ast.parse(src).body if isinstance(x, ast.FunctionDef) and x.name == "_chunks"][0]\n'
+            'ns = {"math": math}\n'
+            'exec(compile(ast.Module(body=[fn], type_ignores=[]), "parsing.py", "exec"), ns)\n'
+            f'n, k = {n}, {k}\n'
+            'chunks = [list(c) for c in ns["_chunks"](list(range(n)), k)]\n'
+            'flat = [x for c in chunks for x in c]\n'
+            'bad = flat != list(range(n)) or any(not c for c in chunks)\n'
+            'print("REPRODUCED" if bad else "NOT-REPRODUCED", n, k, chunks)\n')
+    rc, out, err = engine.run_real(body)
+    return dict(reproduced='REPRODUCED' in out and 'NOT-REPRODUCED' not in out, stdout=out[-800:], stderr=err[-800:], script=body)
 
 
 def main(tier='quick', seed=0):
